@@ -281,6 +281,19 @@ def r02c(model, ctx):
             return (starts is None or sk.startswith(starts)) and (contains is None or contains in sk)
         return False
 
+    def is_tmpl_deep(n, starts):
+        """the template is appended here, or inside a _FragmentCompiler method called from here (extract-method)"""
+        if is_tmpl(n, starts):
+            return True
+        if isinstance(n, ast.Call) and isinstance(n.func, ast.Attribute) and isinstance(n.func.value, ast.Name) and \
+                n.func.value.id == "self":
+            try:
+                callee = model.func_expanded(f"{PYRTL}::_FragmentCompiler.{n.func.attr}")
+            except AnalysisError:
+                return False
+            return any(is_tmpl(x, starts) for x in ast.walk(callee))
+        return False
+
     branch_if = [s for s in ast.walk(fn) if isinstance(s, ast.If) and pmatch('domain_name == "comb"', s.test) is not None]
     need(len(branch_if) == 1, "_FragmentCompiler.__call__: cannot find the comb/sync split")
     bi = branch_if[0]
@@ -372,7 +385,7 @@ def r02c(model, ctx):
                   f"{label}: slots[i].update(...) must be emitted after the statements, the reset block and the "
                   f"memory code", f"{PYRTL}:{g.lineno(ups[0])}")
     # memory code in the sync branch comes after statements and reset, before commit
-    wr = part(nodes_where(lambda n: is_tmpl(n, "slots[{0}].write(")), in_sync)
+    wr = part(nodes_where(lambda n: is_tmpl_deep(n, "slots[{0}].write(")), in_sync)
     need(len(wr) == 1, "sync memory write emission not found")
     st_sync = part(stmt_nodes, in_sync)[0]
     ctx.check(g.dominates({st_sync}, wr[0]), R, "_FragmentCompiler:sync:memory-after-statements",
